@@ -205,7 +205,11 @@ def _tlc(module, cfg, **kw):
 def _build(src):
     import hashlib
     if os.environ.get("C17_DEV_CACHE"):
-        d = os.path.join(os.environ["C17_DEV_CACHE"], "build_" + hashlib.sha1((src + core.REPO).encode()).hexdigest()[:12])
+        h = hashlib.sha1((src + core.REPO).encode())
+        for rel in ("Utility/Buffer.c", "Utility/MemoryView_C.c", "Utility/MemoryView.pyx", "Compiler/Buffer.py", "Compiler/MemoryView.py"):
+            with open(os.path.join(core.REPO, "Cython", rel), "rb") as f:
+                h.update(f.read())
+        d = os.path.join(os.environ["C17_DEV_CACHE"], "build_" + h.hexdigest()[:12])
         return _dev_cached("build", os.path.basename(d), lambda: core.build_many([core.BuildSpec("c17m", src)], d, 1)[0])
     return core.build_many([core.BuildSpec("c17m", src)], core.subdir("c17build"), 1)[0]
 
